@@ -14,7 +14,7 @@ type imgCase struct {
 	H     int    `json:"h"`
 	C     int    `json:"c"`
 	P     int    `json:"p"`
-	Sel   int    `json:"sel"`            // predictor 0..7, 8 = SV1 (C02/C13); NEAR (C07/C14)
+	Sel   int    `json:"sel"`             // predictor 0..7, 8 = SV1 (C02/C13); NEAR (C07/C14)
 	Class string `json:"class,omitempty"` // content class
 	Aux   int    `json:"aux,omitempty"`
 	CSeed uint64 `json:"cseed,omitempty"`
